@@ -21,7 +21,12 @@ for f in sorted(glob.glob(os.path.join(HERE, 'seeded', '*', 'meta.json'))):
     clauses = cl.group(1).replace(',', ', ') if cl else ''
     def esc(s):
         return str(s).replace('|', '/').replace('\n', ' ')
-    rows.append(f"| {sd} | {esc(m.get('summary', ''))[:230]} | {esc(m.get('needs', ''))[:200]} | {esc(verdict)[:260]}{(' — ' + clauses) if clauses and not st else ''} |")
+    rb = str(m.get('rebased', ''))
+    if rb.startswith('OBSOLETE'):
+        verdict += ' [the code site was repaired later; on the repaired code this edit is property-preserving and kept as a benign change]'
+    elif rb:
+        verdict += ' [patch re-created by hand on top of a later fix]'
+    rows.append(f"| {sd} | {esc(m.get('summary', ''))[:230]} | {esc(m.get('needs', ''))[:200]} | {esc(verdict)[:420]}{(' — ' + clauses) if clauses and not st else ''} |")
 table = ("| seed | change | needs | verdict of the registered quick check |\n|------|--------|-------|----------------------------------------|\n"
          + "\n".join(rows) + f"\n\n{len(rows)} seeded changes; every one was confirmed on a scratch copy (demo passes without / fails with the "
          "patch; repository suite 536/536 with the patch).\n")
